@@ -102,6 +102,26 @@ def aliasUnder (c : Option Conv) (declAlias : Option Name) (name : Name) : Optio
 def keywordName (c : Option Conv) (declAlias : Option Name) (name : Name) : Name :=
   (aliasUnder c declAlias name).getD name
 
+/-! ### keyword names at the call site
+
+`runner.translate_args` takes the keyword of `name => value` as the characters that were written
+(`param_name.value`); the convention of the context is consulted when a definition is REGISTERED
+(aliases of its parameters), never when it is called.  So a keyword either is the name a parameter
+has in that context, or it is data for `**kwargs` (`let`, functions made by `def`, host functions). -/
+
+/-- the keyword the call site hands over for `written => value` in a context with convention `c` -/
+def callSiteKeyword (_c : Option Conv) (written : Name) : Name := written
+
+/-- where the keywords of a call go, for a definition with the named parameters `decl` (python name,
+    alias declared in the source) and a `**kwargs` parameter, registered in a context with convention
+    `c`: the ones that carry the name a parameter has under that convention are bound to it; every
+    other one is handed to `**kwargs` under the name that was written, with the value that was written -/
+def splitKeywords {α : Type} (c : Option Conv) (decl : List (Name × Option Name)) (kw : List (Name × α)) :
+    List (Name × α) × List (Name × α) :=
+  let names := decl.map fun d => keywordName c d.2 d.1
+  let kw' := kw.map fun kv => (callSiteKeyword c kv.1, kv.2)
+  (kw'.filter fun kv => names.contains kv.1, kw'.filter fun kv => !names.contains kv.1)
+
 /-! ### rows of `Yaql/Gen/RegistryConv.lean` -/
 
 structure CParam where
